@@ -9,9 +9,9 @@
 template <typename Char_T> struct Key2T {
     using CharType = Char_T;
     Char_T           d[2];
-    Qentem::SizeT    n;
+    unsigned char    n;     // 0..2 (3 bytes in all: the table item stays 16 bytes)
     Key2T() noexcept : d{Char_T(0), Char_T(0)}, n{0} {}
-    Key2T(const Char_T *s, Qentem::SizeT len) noexcept : d{Char_T(0), Char_T(0)}, n{len} {
+    Key2T(const Char_T *s, Qentem::SizeT len) noexcept : d{Char_T(0), Char_T(0)}, n{(unsigned char)(len)} {
         if (len > 0) d[0] = s[0];
         if (len > 1) d[1] = s[1];
     }
